@@ -387,9 +387,9 @@ example :
 without the variant nothing is reported.  Every theorem of this file (outside this section of
 concrete witnesses) is stated for an arbitrary configuration `[Cfg]`, i.e. holds for both. -/
 example :
-    (@reach ⟨true⟩ 2 exProg 1 [.worker 0 100 5 [] [], .env [100, 100], .worker 1 100 5 [] [], .worker 1 100 5 [] []]).evtQ 1 =
+    (@reach { exitReports := true } 2 exProg 1 [.worker 0 100 5 [] [], .env [100, 100], .worker 1 100 5 [] [], .worker 1 100 5 [] []]).evtQ 1 =
       [.deliver 0 { src := 1, tag := 1, seq := 0 }, .exited 1] ∧
-    (@reach ⟨false⟩ 2 exProg 1 [.worker 0 100 5 [] [], .env [100, 100], .worker 1 100 5 [] [], .worker 1 100 5 [] []]).evtQ 1 =
+    (@reach { exitReports := false } 2 exProg 1 [.worker 0 100 5 [] [], .env [100, 100], .worker 1 100 5 [] [], .worker 1 100 5 [] []]).evtQ 1 =
       [.deliver 0 { src := 1, tag := 1, seq := 0 }] := by decide
 
 /-- main: `c1 = @{ ! [50] }, c2 = @{ [2,0] me }, ! [c1, #recv], c3 = @{}, ! [c3]` -/
